@@ -6,6 +6,7 @@ package main
 import (
 	"fmt"
 	"go/constant"
+	"go/token"
 	"go/types"
 	"os"
 	"path/filepath"
@@ -388,4 +389,139 @@ func stringConstsIn(call ssa.CallInstruction) []string {
 		walk(a, 0)
 	}
 	return out
+}
+
+// ------------------------------------------------------------------ OU7
+
+func init() {
+	register(&Rule{ID: "OU7", Min: 4, Run: ruleOU7,
+		Doc: "topological-normaliser-complete: the function every tree/list view sorts its rows with (topoSortTasks) returns every element it is given: the membership set is filled for every input, in-degrees count only dependencies inside that set, the work queue is seeded with exactly the elements of in-degree 0, and an element is re-queued exactly when its last in-set dependency has been emitted (Kahn's algorithm's completeness conditions)"})
+}
+
+// inLoopFacts: labelled outcomes of the branches that lie in the same loop nest as blk and must be passed to reach it.
+func (c *Ctx) inLoopFacts(f *ssa.Function, blk *ssa.BasicBlock) map[string]bool {
+	out := map[string]bool{}
+	for _, bf := range branchFacts(f) {
+		if !(reach(bf.E.From, nil, nil)[blk] && reach(blk, nil, nil)[bf.E.From]) {
+			continue
+		}
+		if !mustPassEdges(f, blk, map[edge]bool{bf.E: true}) {
+			continue
+		}
+		tf := "F"
+		if bf.Holds {
+			tf = "T"
+		}
+		l := c.atomLabel(bf.A)
+		// lookups in local maps get a role by element type
+		if lk, ok := strip(bf.A.X).(*ssa.Lookup); ok {
+			if mt, ok := lk.X.Type().Underlying().(*types.Map); ok {
+				l = "lookup[" + mt.Elem().String() + "]"
+				if bf.A.Kind == "const" {
+					l += "==" + bf.A.C.Value.ExactString()
+				}
+			}
+		}
+		out[l+":"+tf] = true
+	}
+	return out
+}
+
+func onlyFacts(facts map[string]bool, allowed ...string) string {
+	for f := range facts {
+		ok := strings.HasPrefix(f, "cmp:") || strings.HasPrefix(f, "range-ok")
+		for _, a := range allowed {
+			if f == a {
+				ok = true
+			}
+		}
+		if !ok {
+			return f
+		}
+	}
+	return ""
+}
+
+func ruleOU7(c *Ctx) {
+	ts := c.ErgoFn("topoSortTasks")
+	if ts == nil {
+		c.unk("ergo.topoSortTasks", "anchor", "-", "the list normaliser topoSortTasks was not found")
+		return
+	}
+	fn := c.Name(ts)
+	var sortCalls []ssa.CallInstruction
+	sortCalls = append(sortCalls, callsNamed(ts, "sort.Slice", "sort.SliceStable")...)
+	sourceOrder(sortCalls)
+	if len(sortCalls) == 0 {
+		c.bad(fn, "kahn", c.FnPos(ts), "normaliser contains no sort: structure not recognised")
+		return
+	}
+	firstSort := sortCalls[0]
+	nSet, nInc, nSeed, nDec := 0, 0, 0, 0
+	eachInstr(ts, func(r instrRef) {
+		switch x := r.In.(type) {
+		case *ssa.MapUpdate:
+			mt, ok := x.Map.Type().Underlying().(*types.Map)
+			if !ok {
+				return
+			}
+			_, keyField, isField := fieldLoad(x.Key)
+			facts := c.inLoopFacts(ts, r.Blk)
+			switch mt.Elem().String() {
+			case "bool":
+				if isField && keyField == "ID" {
+					nSet++
+					extra := onlyFacts(facts)
+					c.check(extra == "", fn, fmt.Sprintf("membership-set#%d", nSet), c.Pos(x.Pos()), "every input element enters the membership set", "an input element enters the membership set only under "+extra)
+				}
+			case "int":
+				// zero-init, increment or decrement
+				if b, ok := x.Value.(*ssa.BinOp); ok {
+					if _, isLk := b.X.(*ssa.Lookup); isLk {
+						if b.Op == token.ADD {
+							nInc++
+							extra := onlyFacts(facts, "lookup[bool]:T")
+							c.check(extra == "" && facts["lookup[bool]:T"], fn, fmt.Sprintf("in-degree-increment#%d", nInc), c.Pos(x.Pos()),
+								"in-degree counts exactly the dependencies inside the sorted set", "in-degree is incremented under "+extra+" / not restricted to dependencies inside the sorted set: an element whose dependencies live in another group never reaches in-degree 0 and disappears from the view")
+						} else if b.Op == token.SUB {
+							nDec++
+							extra := onlyFacts(facts, "lookup-ok:T", "lookup-ok:Deps:T", "E==nil:F", "lookup[map[string]struct{}]:F", "lookup[struct{}]:T", "bool:T")
+							c.check(extra == "", fn, fmt.Sprintf("in-degree-decrement#%d", nDec), c.Pos(x.Pos()), "in-degree is decremented for every dependant of the emitted element", "in-degree decrement depends on "+extra)
+						}
+					}
+				} else if k, ok := constInt(x.Value); ok && k == 0 {
+					extra := onlyFacts(facts)
+					c.check(extra == "", fn, "in-degree-init", c.Pos(x.Pos()), "every input element gets an in-degree entry", "in-degree entry is created only under "+extra)
+				}
+			}
+		case *ssa.Call:
+			if calleeFullName(&x.Call) != "builtin append" {
+				return
+			}
+			// seeding: appends of an input element that happen before the first sort
+			if !canReachInstr(x, firstSort) || canReachInstr(firstSort, x) {
+				return
+			}
+			if _, isTaskSlice := x.Type().Underlying().(*types.Slice); !isTaskSlice {
+				return
+			}
+			nSeed++
+			facts := c.inLoopFacts(ts, r.Blk)
+			extra := onlyFacts(facts, "lookup[int]==0:T")
+			c.check(extra == "" && facts["lookup[int]==0:T"], fn, fmt.Sprintf("queue-seed#%d", nSeed), c.Pos(x.Pos()),
+				"the queue is seeded with exactly the elements of in-degree 0", "the work queue is seeded under "+extra+" instead of exactly in-degree==0: elements that should start the order are never emitted (rows missing from list)")
+		}
+	})
+	c.check(nSet >= 1 && nInc >= 1 && nSeed >= 1 && nDec >= 1, fn, "kahn-parts", c.FnPos(ts), "membership set, in-degree count, seeding and decrement all present",
+		fmt.Sprintf("normaliser structure not recognised (set=%d inc=%d seed=%d dec=%d)", nSet, nInc, nSeed, nDec))
+	// re-queue on reaching zero: an append after the first sort guarded by lookup[int]==0:T
+	reQ := false
+	eachInstr(ts, func(r instrRef) {
+		if x, ok := r.In.(*ssa.Call); ok && calleeFullName(&x.Call) == "builtin append" && canReachInstr(firstSort, x) {
+			if c.inLoopFacts(ts, r.Blk)["lookup[int]==0:T"] {
+				reQ = true
+			}
+		}
+	})
+	c.check(reQ, fn, "requeue-on-zero", c.FnPos(ts), "an element is queued when its in-degree drops to 0", "no element is re-queued when its in-degree reaches 0")
 }
